@@ -474,6 +474,50 @@ def stage_targeted(ctx: Ctx, progs):
                     judge_edit(ctx, 'continuation', src, 'exec', tuple(f.loc), new)
 
 
+SC_HDR = ('From Coq Require Import List Bool Arith NArith.\nFrom PF Require Import kernel.PyBase kernel.Text models.Scaffold.\nImport ListNotations.\n'
+          "Fixpoint ln_eqb (a b : list N) : bool := match a, b with [], [] => true | x :: a', y :: b' => N.eqb x y && ln_eqb a' b' | _, _ => false end.\n"
+          "Fixpoint txt_eqb (a b : list (list N)) : bool := match a, b with [], [] => true | x :: a', y :: b' => ln_eqb x y && txt_eqb a' b' | _, _ => false end.\n")
+
+
+class ScaffoldRecorder:
+    """records every statement-level reparse (fst_raw._reparse_raw_base called with scaffold=True) of a statement that starts at column 0: the live source, the copy the
+    statement is reparsed in and the edit - for the correspondence with models/Scaffold.v and the hypothesis `pln <= ln` of its theorem"""
+    def __init__(self, budget):
+        self.budget, self.terms, self.meta, self.seen = budget, [], [], set()
+
+    def __enter__(self):
+        import fst.fst_raw as fr
+        self.fr, self.orig = fr, fr._reparse_raw_base
+        rec = self
+
+        def wrapper(self_, new_lines, ln, col, end_ln, end_col, copy_lines, path, set_ast=True, mode=None, first_lineno=0, first_line_col_delta=0, scaffold=False):
+            try:
+                if scaffold and set_ast and len(rec.terms) < rec.budget:   # set_ast False = only the block header is reparsed, behind a synthetic body
+                    pln, pcol = self_.bloc[:2]
+                    L = [str(l) for l in self_.root._lines]
+                    C = [str(l) for l in copy_lines]
+                    key = (tuple(L), tuple(C), ln, col, end_ln, end_col)
+                    if pcol == 0 and pln and C[:pln] == [''] * pln and key not in rec.seen and sum(map(len, L)) < 400:
+                        rec.seen.add(key)
+                        is_root = self_ is self_.root
+                        t = f'Nat.leb {pln} {ln}'
+                        if is_root:   # the kept part reaches the end of the source: the copy is exactly the scaffold, and after the edit the scaffold of the new source
+                            t += (f' && txt_eqb (scaffold {clines(L)} {pln}) {clines(C)}'
+                                  f' && txt_eqb (put_spec (scaffold {clines(L)} {pln}) {clines(new_lines)} {ln} {col} {end_ln} {end_col}) (scaffold (put_spec {clines(L)} {clines(new_lines)} {ln} {col} {end_ln} {end_col}) {pln})')
+                        else:         # the kept part ends with the statement: the copy is a prefix of the scaffold (its last line cut at the statement's end)
+                            t += f' && txt_eqb (firstn {len(C) - 1} (scaffold {clines(L)} {pln})) {clines(C[:-1])}'
+                        rec.terms.append(t)
+                        rec.meta.append({'src': '\n'.join(L), 'copy': '\n'.join(C), 'rect': [ln, col, end_ln, end_col], 'new': '\n'.join(new_lines), 'first_kept_line': pln, 'root_statement': is_root})
+            except Exception as e:
+                rec.meta.append({'recorder-error': repr(e)[:200]})
+            return rec.orig(self_, new_lines, ln, col, end_ln, end_col, copy_lines, path, set_ast, mode, first_lineno, first_line_col_delta, scaffold)
+        fr._reparse_raw_base = wrapper
+        return self
+
+    def __exit__(self, *a):
+        self.fr._reparse_raw_base = self.orig
+
+
 def run(ctx: Ctx):
     ctx.rule = ('random sequences (1..5 quick / 1..14 thorough steps) on corpus + generated programs of: put_src(new, rect, "reparse") on the root or a random node with rectangles '
                 'on node boundaries, off them, spanning statements/blocks, or random; node.replace(text, raw=True); reparse(). new text: fixed hostile list (valid, invalid, '
@@ -486,9 +530,19 @@ def run(ctx: Ctx):
         ctx.build_props()
     progs = corpus(ctx.rng, gen=ctx.scale(25, 200))
     progs = [p for p in progs if len(p) < 1500]
-    run_guarded(ctx, stage_oracle, progs)
-    run_guarded(ctx, stage_keywords, progs)
-    run_guarded(ctx, stage_targeted, progs)
+    with ScaffoldRecorder(ctx.scale(300, 3000)) as rec:
+        run_guarded(ctx, stage_targeted, progs)
+        run_guarded(ctx, stage_oracle, progs)
+        run_guarded(ctx, stage_keywords, progs)
+    if ok:
+        try:
+            failed = coq_eval_bools('C10_scaffold', SC_HDR, rec.terms, shard=100)
+            ctx.correspondence('models/Scaffold.v scaffold == the copy in which fst_raw reparses a column-0 statement alone (every recorded _reparse_raw_base(scaffold=True) call), '
+                               'the edit starts at or below its first kept line, and for a root statement the copy after the edit is the scaffold of the new source',
+                               len(rec.terms), [rec.meta[i] for i in failed])
+            ctx.extra['scaffold_calls_recorded'] = {'total': len(rec.terms), 'root_statement': sum(1 for m in rec.meta if m.get('root_statement'))}
+        except CoqEvalError as e:
+            ctx.broken.append({'kind': 'correspondence', 'name': 'scaffold', 'detail': str(e)[:2000]})
 
 
 def replay(path):
